@@ -4,6 +4,11 @@ import json, os, sys
 HERE = os.path.dirname(os.path.dirname(os.path.abspath(__file__)))
 
 CHECKS = {
+ "C18": dict(
+   technique="exhaustive enumeration over the bundled domain lists x look-alike host variants x decoys x four input forms against a reference membership predicate; Hypothesis random hosts; pairwise invariance cases",
+   text="Every shortener / should-resolve / YouTube domain and the four pattern-based sites, in 10 host variants (exact, upper, subdomains, glued labels, foreign suffix, dot replaced, ...), with homepage/non-homepage paths and decoys naming site domains in userinfo/path/query/fragment, evaluated in the http(s), scheme-less, '//' and SplitResult forms; is_shortened_url => should_resolve; invariance of is_homepage/could_be_html (path only) and has_special_host/get_hostname (host only). Exhaustive over the lists within the stated variants.",
+   note="Trusted base: vlib/urlref.split for the host; the bundled lists as loaded at run time for YouTube/shorteners (a change to the data is followed, a change to the matching logic is not); frozen documented domains for the pattern sites and should_resolve extras.",
+   design="§4 C18"),
  "C16": dict(
    technique="metamorphic testing over the 16 option configurations (all strict->relaxed edges) and validity-predicate testing of urls_from_text over exhaustively enumerated and random token texts",
    text="is_url evaluated under all 16 configurations on grammar URLs and a near-miss panel: every strict->relaxed edge, whitespace invariance, TLD rule against the bundled TLD set; urls_from_text on every text of <=2/3 tokens over a 63-token alphabet (URLs, complete/truncated markdown links, ASCII/typographic punctuation) and <=3/4 tokens over a reduced one, plus random texts: no exception, non-empty stripped substrings in order, protocol present, accepted by is_url.",
